@@ -237,7 +237,19 @@ def spec_check_kernel(name, args, info, got):
     if d is None:
         return None
     ref = a @ b
-    return None if np.array_equal(d, ref) else f"kernel output densifies to {d.tolist()}, product is {ref.tolist()}"
+    if not np.array_equal(d, ref):
+        return f"kernel output densifies to {d.tolist()}, product is {ref.tolist()}"
+    g = got["ok"]
+    if name in ("csr_csr", "csc_nd_sparse"):
+        # the repaired kernels promise what the old ones broke: every allocated slot written, segments sorted
+        ip = g["indptr"]
+        if len(g["data"]) != g["alloc"] or len(g["indices"]) != g["alloc"] or ip[0] != 0 or ip[-1] != g["alloc"] or any(x > y for x, y in zip(ip, ip[1:])):
+            return f"index pointer / allocation inconsistent: {g}"
+        for r in range(len(ip) - 1):
+            seg = g["indices"][ip[r]:ip[r + 1]]
+            if any(x > y for x, y in zip(seg, seg[1:])):
+                return f"segment {r} of the kernel output is not sorted: {seg}"
+    return None
 
 
 def model_vs_spec(name, args, info, model):
@@ -529,6 +541,11 @@ def matmul_shapes(rng):
 
     sa = (k,) if ra == 1 else part(ra) + (int(rng.choice(EXT)), k)
     sb = (k,) if rb == 1 else part(rb) + (k, int(rng.choice(EXT)))
+    r = rng.random()
+    if r < 0.12 and ra >= 2:      # `a` squeezable to a vector: every axis but the last has length 1
+        sa = (1,) * (ra - 1) + (k,)
+    elif r < 0.24 and rb >= 3:    # `b` squeezable to a matrix: every batch axis has length 1
+        sb = (1,) * (rb - 2) + sb[-2:]
     return sa, sb
 
 
@@ -552,15 +569,21 @@ def einsum_case(rng):
     nops = int(rng.choice([1, 2, 2]))
     terms = ["".join(str(c) for c in rng.choice(list(letters[:3 + int(rng.random() < 0.3)]), size=int(rng.integers(1, 4)))) for _ in range(nops)]
     used = list(dict.fromkeys("".join(terms)))
-    ell = rng.random() < 0.15
+    ell = rng.random() < 0.25
+    # with an ellipsis every operand covers its own number of broadcast dims (0, 1 or 2), aligned at the right
+    batch = tuple(int(v) for v in rng.choice([1, 2, 3], size=2)) if ell else ()
+    counts = [int(rng.integers(0, 3)) if ell else 0 for _ in terms]
+    pre = ["..." if ell else "" for _ in terms]
     if rng.random() < 0.3:
-        sub = ",".join(("..." + t) if ell else t for t in terms)
+        sub = ",".join(p + t for p, t in zip(pre, terms))
     else:
         out = [c for c in used if rng.random() < 0.6]
         out = [out[i] for i in rng.permutation(len(out))]
-        sub = ",".join(("..." + t) if ell else t for t in terms) + "->" + ("..." if ell else "") + "".join(out)
-    lead = (int(rng.choice([1, 2])),) if ell else ()
-    shapes = [lead + tuple(sizes[c] for c in t) for t in terms]
+        sub = ",".join(p + t for p, t in zip(pre, terms)) + "->" + ("..." if ell and (any(counts) or rng.random() < 0.8) else "") + "".join(out)
+    shapes = []
+    for t, c in zip(terms, counts):
+        lead = tuple(1 if (e != 1 and rng.random() < 0.2) else e for e in batch[len(batch) - c:]) if c else ()
+        shapes.append(lead + tuple(sizes[ch] for ch in t))
     return sub, shapes
 
 
@@ -734,6 +757,7 @@ WITNESSES = {
                                 "b": spec_of(np.array([[1, 1], [0, 1]]), "nd", dtype="complex128"), "axes": [[1], [0]], "rt": "coo"},
     "F-complex-negzero-mixed": {"op": "outer", "a": spec_of(np.array([1, 0, 2]), "coo", dtype="complex128"),
                                 "b": spec_of(np.array([1, -2, 3]), "nd", dtype="complex128")},
+    "F-einsum-broadcast-one": {"op": "einsum", "subscripts": "i,i->i", "a": spec_of(np.array([2]), "coo"), "b": spec_of(np.array([1, 2, 3]), "coo")},
     "F-tensordot-empty-return-type": {"op": "tensordot", "a": spec_of(np.zeros((2, 0), dtype=np.int64), "coo"), "b": spec_of(np.zeros((0, 3), dtype=np.int64), "coo"),
                                       "axes": [[1], [0]], "rt": "nd"},
 }
@@ -824,6 +848,81 @@ def grid_cases(rng, reps):
     return out
 
 
+RANK_FMTS = ["coo", "gcxs", "nd"]
+
+
+def matmul_rank_grid(rng):
+    """matmul / @ for every pair of operand ranks 1..4 in three shapes each: generic with broadcasting batch
+    axes (some of length 1), `a` with all axes but the last of length 1 (squeezable to a vector), `b` with
+    all batch axes of length 1 (squeezable to a matrix) - so every shortcut of `matmul` is entered and
+    left from both sides of its rank guard in every run.  Extents are pairwise distinct where possible so
+    that a misplaced axis changes the shape."""
+    out = []
+    for ra, rb in itertools.product(range(1, 5), repeat=2):
+        for variant in ("generic", "a_ones", "b_ones") * (2 if ra != rb else 1):
+            if variant == "a_ones" and ra < 2:
+                continue
+            if variant == "b_ones" and rb < 3:
+                continue
+            k, m, n = 5, int(rng.choice([2, 4])), int(rng.choice([3, 6]))
+            nb = max(ra, rb) - 2
+            batch = tuple(int(v) for v in rng.permutation([2, 3, 4])[:max(nb, 0)])
+
+            def part(r, ones):
+                if r <= 2:
+                    return ()
+                t = batch[len(batch) - (r - 2):]
+                return tuple(1 if (ones or rng.random() < 0.35) else e for e in t)
+
+            sa = (k,) if ra == 1 else part(ra, variant == "a_ones") + ((1 if variant == "a_ones" else m), k)
+            sb = (k,) if rb == 1 else part(rb, variant == "b_ones") + (k, n)
+            fa, fb = str(rng.choice(RANK_FMTS)), str(rng.choice(RANK_FMTS))
+            if fa == "nd" and fb == "nd":
+                fa = "coo"
+            da, db = small_dense(rng, sa, density=0.8), small_dense(rng, sb, density=0.8)
+
+            def sp(d, f):
+                ca = None
+                if f == "gcxs" and d.ndim >= 2:
+                    ch = gen.compressed_axes_choices(d.ndim)
+                    ca = ch[int(rng.integers(len(ch)))]
+                return spec_of(d, f, ca)
+
+            out.append({"op": "matmul" if rng.random() < 0.7 else "@", "a": sp(da, fa), "b": sp(db, fb)})
+    return out
+
+
+ELL_CORES = [("i", "i"), ("ij", "jk"), ("i", "j"), ("ij", "j"), ("ii", "i"), ("ij", "ij")]
+
+
+def einsum_ellipsis_grid(rng):
+    """einsum with `...` where the operands cover DIFFERENT numbers of broadcast dims: every pair of counts
+    in {0,1,2}^2, once with unequal and once with coinciding batch extents, with implicit output, explicit
+    output carrying `...`, and explicit output without it; plus one-operand cases."""
+    out = []
+    for (e1, e2), same in itertools.product(itertools.product(range(3), repeat=2), (False, True)):
+        batch = (3, 3) if same else (2, 3)
+        ta, tb = ELL_CORES[int(rng.integers(len(ELL_CORES)))]
+        sizes = {"i": 4, "j": 2, "k": 3}
+        sa = batch[2 - e1:] + tuple(sizes[c] for c in ta)
+        sb = batch[2 - e2:] + tuple(sizes[c] for c in tb)
+        keep = [c for c in dict.fromkeys(ta + tb) if rng.random() < 0.5]
+        style = int(rng.integers(3)) if e1 == e2 == 0 else int(rng.integers(2))  # NumPy rejects an output without `...` over broadcast dims
+        sub = f"...{ta},...{tb}" + ("" if style == 0 else "->..." + "".join(keep) if style == 1 else "->" + "".join(keep))
+        fa, fb = str(rng.choice(RANK_FMTS)), str(rng.choice(RANK_FMTS))
+        if fa == "nd" and fb == "nd":
+            fb = "coo"
+        da, db = small_dense(rng, sa, density=0.8), small_dense(rng, sb, density=0.8)
+        out.append({"op": "einsum", "subscripts": sub, "a": spec_of(da, fa, gen.compressed_axes_choices(da.ndim)[0] if fa == "gcxs" and da.ndim >= 2 else None),
+                    "b": spec_of(db, fb, gen.compressed_axes_choices(db.ndim)[0] if fb == "gcxs" and db.ndim >= 2 else None)})
+    for e in range(3):
+        sa = (2, 3)[2 - e:] + (3, 3)
+        da = small_dense(rng, sa, density=0.8)
+        for sub in ("...ii->...i", "...ij->...ji", "...ij"):
+            out.append({"op": "einsum1", "subscripts": sub, "a": spec_of(da, "coo"), "b": spec_of(np.zeros(()), "nd")})
+    return out
+
+
 def leg_c(ctx, rng, pool, active, n, extra=(), corpus=True):
     cases, refs = [], []
     hang_cap = 2 if ctx.quick else 8
@@ -834,7 +933,7 @@ def leg_c(ctx, rng, pool, active, n, extra=(), corpus=True):
         refs.append(ref_of(w))
         if findings_c04.in_hang_region(w):
             hang_n += 1
-    for c in list(extra) + (grid_cases(rng, 1 if ctx.quick else 4) if corpus else []):
+    for c in list(extra) + ((grid_cases(rng, 1 if ctx.quick else 4) + matmul_rank_grid(rng) + einsum_ellipsis_grid(rng)) if corpus else []):
         cases.append(c)
         refs.append(ref_of(c))
     k = 0
